@@ -42,3 +42,73 @@ Theorem author_labels_conserved :
   Permutation.Permutation (chunk_labels (finals w)) (dlabs body).
 Proof. exact WorkLabels.chunk_labels_are_source_labels. Qed.
 Print Assumptions author_labels_conserved.
+
+(* ---------- the shape of the final chunk graph (WorkShape.v, worklist invariants, no validator) ---------- *)
+From Pory Require Import Sem2 SemTgt RenderSim RenderCheck WorkShape OrderPerm RenderFromSource LabelsUnique.
+(* For every script body that passes the source check: chunk ids are exactly 0 .. n-1; the strict targets - generated gotos,
+   success edges of conditions, case and default entries - are chunks of the graph and never chunk 0; every other target
+   (failure edges, break / continue destinations, return chunks) is -1 or such a chunk; the chunk right after a switch chunk
+   with a case table is its first body chunk and no chunk falls through to it. *)
+Theorem final_graph_shape :
+  forall body w, emit_graph body = Ok w -> src_ok body ->
+  let G := finals w in
+  WorkShape.dense G /\ G <> [] /\
+  (forall c, In c G -> forall d, In d (stargets c) -> (0 < d)%Z /\ In d (ids G)) /\
+  (forall c, In c G -> forall d, In d (targets c) -> d = (-1)%Z \/ ((0 < d)%Z /\ In d (ids G))) /\
+  (forall S, In S G -> is_table S -> (0 < cid S)%Z /\ In (cid S + 1)%Z (ids G) /\ forall c, In c G -> tail_of c <> (cid S + 1)%Z).
+Proof. exact WorkShape.final_graph_shape. Qed.
+Print Assumptions final_graph_shape.
+
+(* both chunk orders enumerate every chunk of a dense graph exactly once *)
+Theorem order_is_a_permutation_of_the_chunks :
+  forall b G, OrderPerm.dense G -> G <> [] -> Permutation.Permutation (order_of b G) (map cid G).
+Proof. exact OrderPerm.order_of_perm. Qed.
+Print Assumptions order_is_a_permutation_of_the_chunks.
+
+(* how each element of the optimized order got there *)
+Theorem optimized_order_step :
+  forall G, OrderPerm.dense G -> G <> [] ->
+  forall pre d post, order_of true G = pre ++ d :: post ->
+    (pre = [] /\ d = 0%Z) \/
+    (exists pre' p c, pre = pre' ++ [p] /\ get_chunk G p = Some c /\ tail_of c = d) \/
+    (forall i, (1 <= i < d)%Z -> In i pre).
+Proof. exact OrderPerm.opt_order_step. Qed.
+Print Assumptions optimized_order_step.
+
+(* THE RENDER CHECK IS A THEOREM: for every body that passes the source check and both orders, the executable check wf_render
+   (order duplicate-free and complete, ids distinct, every referenced chunk rendered, chunk statements simple, chunk 0 never a
+   jump target, the last chunk of the order does not run off the end) holds whenever the label names of the emitted script are
+   pairwise distinct and the three conditions on names chosen by the author hold (names_okb: an AutoVar command is not called
+   end / return / goto; a goto names a label of the script or no label of the emitted script; no switch without cases). *)
+Theorem wf_render_from_source :
+  forall mp name optimize body w code,
+  emit_graph body = Ok w -> src_ok body ->
+  NoDup (lnames code) ->
+  names_okb (finals w) code = true ->
+  wf_render mp name (finals w) (order_of optimize (finals w)) code = true.
+Proof. exact RenderFromSource.wf_render_from_source. Qed.
+Print Assumptions wf_render_from_source.
+
+(* the whole render check and the label check from the source: only the author's names and a size bound remain *)
+Theorem render_check_from_source :
+  forall mp tl name glob optimize body w code,
+  emit_graph body = Ok w -> src_ok body ->
+  emit_script mp tl name glob optimize body = Ok code ->
+  NoDup (dlabs body) ->
+  (Z.of_nat (List.length (finals w)) <= 10 ^ 40)%Z ->
+  names_okb (finals w) code = true ->
+  wf_render mp name (finals w) (order_of optimize (finals w)) code = true /\ C01Final.labels_okb body (finals w) = true.
+Proof. exact RenderFromSource.render_check_from_source. Qed.
+Print Assumptions render_check_from_source.
+
+(* the labels of a rendered script are pairwise distinct (generated names are injective in the chunk id, never equal to the
+   script name, never equal to a label of the author: the clash check) *)
+Theorem rendered_labels_distinct :
+  forall mp tl name glob G order code,
+    render_chunks mp tl name glob G order = Ok code ->
+    NoDup order -> NoDup (map cid G) ->
+    (forall d, In d order -> (0 <= d < 10 ^ 40)%Z) ->
+    NoDup (chunk_labels G) ->
+    NoDup (lnames code).
+Proof. exact LabelsUnique.rendered_labels_distinct. Qed.
+Print Assumptions rendered_labels_distinct.
